@@ -105,7 +105,7 @@ func runC08(c c08Case, r *rep.Report) (key, msg string, stats map[string]int64) 
 			so.SetPingInterval(pi)
 			so.SetPingTimeout(pi)
 			w := rig.NewWorld(rig.Options{Server: so})
-			defer w.Shutdown()
+			defer w.Finish()
 			cl, err := w.Connect(rig.ClientCfg{Rev: 4, Transport: "polling"})
 			rig.Wait()
 			sock := w.Socket(0)
